@@ -8,11 +8,11 @@ CONF = dict(
              'the group order n is a literal in Model/Scalar.v; the harness compares its own copy with btcec.S256().N and K exercises n-1, n, n+1 against libsecp',
              'buffer ownership model (caller / package-level Zero / fresh local) instead of a full heap: argument immutability is the statement that no in-place libsecp call targets a buffer that is not a fresh copy'],
     assumptions=[],
-    explanation='theorems: closed forms of the three helpers for all 64-bit values and all scalars that are absent or 32 bytes below n (value*ab+vb, scalar+value*ab+vb, a-b modulo n, nil = 0, results wrapping to zero returned as 32 zero bytes); exact characterisation of the inputs on which the code returns an error instead (_error_iff), with the full statements refuted by kernel-evaluated witnesses; no helper writes to an argument, for every input. K: whole result line (outcome class, result bytes incl. nil vs 32 bytes, whether the package-level Zero slice is returned, argument contents after the call) on generated triples biased to 0, 1, 2, n-1, n-2, (n+-1)/2, equal / negated / cancelling operands, nil vs 32 zero bytes vs empty, wrong lengths, values >= n. S: arithmetic against math/big in the property domain, guard bytes in front of and behind every argument (spare capacity), package-level Zero unchanged, zkpGenerator methods agree with the package functions.',
+    explanation='theorems: for all 64-bit values and all scalars that are absent or 32 bytes below n each helper answers and the answer is value*ab+vb, scalar+value*ab+vb, a-b modulo n (nil = 0; equal operands and results wrapping to zero give 32 zero bytes) — full totality statements since the repair 9f323e4; what is still refused lies outside the domain and is characterised exactly over all byte strings for SubtractScalars and CalculateScalarOffset (wrong lengths not caught by the equal-operands branch, different byte strings congruent modulo n, a value blinder >= n with a non-zero sum); no helper writes to an argument, for every input. K: whole result line (outcome class, result bytes incl. nil vs 32 bytes, whether the package-level Zero slice is returned, argument contents after the call) on generated triples biased to 0, 1, 2, n-1, n-2, (n+-1)/2, equal / negated / cancelling operands, nil vs 32 zero bytes vs empty, wrong lengths, values >= n. S: arithmetic against math/big in the property domain (any error there is a failure), guard bytes in front of and behind every argument (spare capacity), package-level Zero unchanged, zkpGenerator methods agree with the package functions.',
 )
 
 TEXT = dict(
-    text='Machine-checked proof (Coq) over a model of the three scalar helpers and of the libsecp private-key negate / tweak-add / tweak-mul calls they use: whenever a helper answers, the answer is exactly value*ab+vb, scalar+value*ab+vb, a-b modulo the group order (absent operand = 0, results that wrap to zero included), and it never writes to an argument. The inputs on which the code returns an error although the property asks for a value (equal operands of SubtractScalars; present asset blinder with absent value blinder) are characterised exactly, refuted by witnesses and recorded as known findings.',
-    note=COMMON_NOTE + 'No cryptographic idealisation: this property is pure arithmetic modulo n. The full (total) statements are false of the code and are kept as *_total_partial / *_total_refuted pairs.',
+    text='Machine-checked proof (Coq) over a model of the three scalar helpers and of the libsecp private-key negate / tweak-add / tweak-mul calls they use: for every 64-bit value and all scalars that are absent or 32 bytes below the group order the helpers answer exactly value*ab+vb, scalar+value*ab+vb, a-b modulo n (absent operand = 0, equal operands and results that wrap to zero included), and they never write to an argument. The inputs still refused (outside that domain) are characterised exactly for SubtractScalars and CalculateScalarOffset.',
+    note=COMMON_NOTE + 'No cryptographic idealisation: this property is pure arithmetic modulo n. The total statements hold since the repair 9f323e4 (reverting it makes the proofs and the oracle fail).',
     technique='Coq proof (closed forms modulo n, error-region characterisation, ownership/write-log frame) + differential check against cgo libsecp256k1-zkp',
 )
